@@ -33,7 +33,7 @@ ALL_EXHAUSTIVE = False
 
 INTERNAL_RE = re.compile(r'<(class|function|built-in|bound method|module|method-wrapper|method|generator object|slot wrapper|code object|frame object|cell)\b|'
                          r'object at 0x|<built-in method|<lambda>|<genexpr>')
-DATA_TYPES = (type(None), bool, int, float, complex, str, bytes, type(Ellipsis), _dt.date, _dt.datetime)
+DATA_TYPES = (type(None), bool, int, float, complex, str, bytes, type(Ellipsis), _dt.date, _dt.datetime, _dt.timedelta)
 
 # ------------------------------------------------------------------------------------------------
 # audit monitor
